@@ -744,4 +744,84 @@ theorem search_sorted (V width : Nat) (fs : List FrameIn) (f : FrameIn) (s : Lis
   rw [hstep, finish_probs_of_sized width _ (advance_sized true V width _ _ _ _ _)]
   exact advance_sorted V width f.ext f.nonext f.blank _ s hc.1 hc.2 hf.2.2 hk
 
+
+/-! ### elements of length 0 -/
+
+/-- the state after one frozen frame from the initial state -/
+def frozenInit (width : Nat) (last : List Nat) (isP : List (List Bool)) : State :=
+  { tm1 := 1, y := List.replicate width [0], lens := List.replicate width 0,
+    nb := [XR.zero] ++ List.replicate (width - 1) XR.negInf,
+    b := [XR.one] ++ List.replicate (width - 1) XR.negInf, last := last, isPrefix := isP }
+
+theorem loopStep_init_frozen (fix : Bool) (V width : Nat) (f : FrameIn) :
+    (loopStep fix V width false initState f).1
+      = frozenInit width (advance fix V width f.ext f.nonext f.blank initState f.sel).st.last
+          (advance fix V width f.ext f.nonext f.blank initState f.sel).st.isPrefix := by
+  simp only [loopStep, Bool.false_eq_true, if_false, initState, expandTo, frozenInit,
+    List.map_replicate, List.nil_append, List.length_singleton, List.singleton_append, Nat.zero_add]
+
+theorem getN_replicate_zero (n k : Nat) : getN (List.replicate n 0) k = 0 := by
+  unfold getN
+  rw [List.getD_eq_getElem?_getD]
+  by_cases h : k < n <;> simp [List.getElem?_replicate, h]
+
+theorem finish_frozenInit (width : Nat) (hw : 0 < width) (last : List Nat) (isP : List (List Bool)) :
+    finish width (frozenInit width last isP) = finish width initState := by
+  by_cases h1 : width = 1
+  · subst h1
+    simp [finish, frozenInit, initState, getX, getN]
+  · have hc : (width == 1 && width != 1) = false := by
+      have : (width == 1) = false := by simpa using h1
+      simp [this]
+    have hc' : ((1 : Nat) == 1 && width != 1) = true := by
+      have : (width != 1) = true := by simpa [bne] using h1
+      simp [this]
+    have hl : ([XR.zero] ++ List.replicate (width - 1) XR.negInf).length = width := by
+      simp; omega
+    simp only [finish, frozenInit, initState, hl, hc, hc', List.length_singleton, Bool.false_eq_true,
+      if_false, if_true, expandTo, List.length_replicate, getN_replicate_zero, List.take_zero]
+    congr 1
+    apply List.ext_getElem
+    · simp; omega
+    · intro k hk1 hk2
+      simp only [List.length_map, List.length_range] at hk1
+      simp only [List.getElem_map, List.getElem_range]
+      cases k with
+      | zero => simp [getX]
+      | succ k =>
+        have hk : k < width - 1 := by omega
+        simp [getX, List.getElem_append_right, hk]
+        rfl
+
+theorem sized_frozenInit (width : Nat) (hw : 0 < width) (last : List Nat) (isP : List (List Bool)) :
+    Sized width (frozenInit width last isP) := by
+  refine ⟨?_, ?_, ?_, ?_⟩ <;> simp [frozenInit] <;> omega
+
+theorem lensOk_frozenInit (width : Nat) (last : List Nat) (isP : List (List Bool)) :
+    LensOk (frozenInit width last isP) := by
+  constructor
+  · intro k
+    simp only [frozenInit, getN_replicate_zero]
+    omega
+  · intro k hk
+    simp only [frozenInit, List.length_replicate] at hk ⊢
+    rw [List.getD_eq_getElem?_getD]
+    simp [List.getElem?_replicate, hk]
+
+/-- an element of length 0: whatever frames follow, the result is that of no frames at all -/
+theorem search_len0 (fix : Bool) (V width : Nat) (hw : 0 < width) (extra : List FrameIn) :
+    (search fix V width 0 extra).1 = (search fix V width 0 []).1 := by
+  cases extra with
+  | nil => rfl
+  | cons f fs =>
+    have e : ∀ fr, (search fix V width 0 fr).1 = finish width (loop fix V width 0 0 initState fr).1 := by
+      intro fr; simp [search]
+    rw [e, e]
+    have hd : decide (0 < 0) = false := by simp
+    simp only [loop, hd]
+    rw [loopStep_init_frozen]
+    rw [finish_rel width _ _ (sized_frozenInit width hw _ _) (lensOk_frozenInit width _ _)
+      (loop_frozen fix V width 0 _ fs 1 _ (by omega) (sized_frozenInit width hw _ _) (rel_refl _))]
+    exact finish_frozenInit width hw _ _
+
 end PdtVerif.CtcPrefix
